@@ -78,6 +78,11 @@ def check(an, rep, tier):
         ('a budget alone is accepted', dict(m='int:mmax'), False),
         ('validation data with e_vld alone is accepted',
          dict(I_vld='I[mv,d]', y_vld='f[mv]', e_vld='num'), False),
+        # 0 is a value, not "unset": a sweep count / threshold / budget of
+        # zero given alone is a stop criterion
+        ('nswp=0 alone is accepted', dict(nswp=('lit', 0)), False),
+        ('e=0. alone is accepted', dict(e=('lit', 0.)), False),
+        ('m=0 alone is accepted', dict(m=('lit', 0)), False),
     ]
     for what, extra, bad in scen:
         v_ = dict(base)
@@ -129,7 +134,7 @@ def check(an, rep, tier):
     from .. import rules_proto as _RPZ
     _RPZ.check_none_vs_zero(prog, rep, modules={'cross', 'utils'})
     rep.floor('P-budget', 1, 'objective call sites')
-    rep.floor('P-validate', 6, 'argument validation')
+    rep.floor('P-validate', 9, 'argument validation')
     rep.floor('P-count', 4, 'counter paths')
     rep.floor('P-stop-writers', 6, 'stop writers (cross + _info_appr)')
     rep.floor('P-interrupt', 2, 'interruption sites')
